@@ -1198,3 +1198,20 @@ Proof.
   apply (G (ex_vars st)) in Hin; [exact Hin|].
   intros kv Hkv. apply H. apply in_map. exact Hkv.
 Qed.
+
+(* ================================================================== 14. the configuration route keeps entry order *)
+Lemma resolve_entries_app : forall a b, resolve_entries (a ++ b) = resolve_entries a ++ resolve_entries b.
+Proof. intros. unfold resolve_entries. apply flat_map_app. Qed.
+
+(* hooks see the entries' plugins in the order of the entries, whatever their form *)
+Theorem entries_applied_in_order : forall a b h o,
+  apply_hook (resolve_entries (a ++ b)) h o =
+  match apply_hook (resolve_entries a) h o with
+  | None => None
+  | Some (ps', o1) =>
+      match apply_hook (resolve_entries b) h o1 with
+      | None => None
+      | Some (qs', o2) => Some (ps' ++ qs', o2)
+      end
+  end.
+Proof. intros. rewrite resolve_entries_app. apply apply_hook_app. Qed.
